@@ -330,6 +330,9 @@ func (rn *runner) runAny(i int) {
 	ti := dim(len(templates))
 	route := anyRoutes[dim(len(anyRoutes))]
 	es := errSlots[dim(len(errSlots))]
+	if cfg.Option && r.Intn(100) < 35 {
+		ti = devTemplates[r.Intn(len(devTemplates))]
+	}
 	base := time.Now().Unix()
 	rep.Eval()
 	rep.Count("any_cases", 1)
@@ -700,6 +703,9 @@ func (rn *runner) runAny(i int) {
 	uc.armedStale = (uc.Mode == "just-stale" || uc.Mode == "extreme-ts") && form == "canonical" && (uc.HostVar == "own" || uc.HostVar == "own+x-forwarded-host") &&
 		(uc.Shape2 == "" || !strings.HasSuffix(uc.Shape2, "(first)")) &&
 		((route == "sign_in" && uc.Shape == "direct" && cid == "right") || (route == "sign_out" && uc.Shape == "direct") || (route == "start" && uc.Shape == "nested"))
+	if templates[ti].family == "dev-convenience" && uc.Mode == "valid-signature" && form == "canonical" && (uc.HostVar == "own" || uc.HostVar == "own+x-forwarded-host") {
+		rep.Count("any_dev_target_cases_"+route+"_scheme_"+rn.scheme, 1)
+	}
 	site := route
 	if form != "canonical" {
 		site += "(path-variant)"
@@ -851,6 +857,7 @@ func (rn *runner) judgeAnyResponse(i int, site, route, form string, rs *sut.Resp
 	}
 
 	// ---- U1
+	cleanupShape := is3xx && form != "canonical" && (rs.Status == 301 || rs.Status == 308)
 	idpLogin, allOwn := false, true
 	for _, rv := range vals {
 		rep.Count("any_redirect_values_inspected", 1)
@@ -889,7 +896,7 @@ func (rn *runner) judgeAnyResponse(i int, site, route, form string, rs *sut.Resp
 				own := false
 				for _, ru := range queryGetAll(q, "redirect_uri") {
 					b := readBrowser(ru, "https")
-					if b.Kind == "authority" && b.Host == lowerASCII(rn.as.Host) {
+					if rn.isOwn(b) {
 						own = true
 					}
 				}
@@ -900,8 +907,13 @@ func (rn *runner) judgeAnyResponse(i int, site, route, form string, rs *sut.Resp
 				}
 				continue
 			}
-			if rd.Host == lowerASCII(rn.as.Host) {
+			if rn.isOwn(rd) {
 				rep.Count("any_location_host_authenticator-itself", 1)
+				if cleanupShape {
+					// the routers' clean-up of an absolute-form request target stays on the authenticator
+					// (which need not lie inside the proxy root domains)
+					continue
+				}
 			} else {
 				allOwn = false
 			}
